@@ -212,6 +212,10 @@ int main(int argc, char** argv) {
     };
 
     if (!a.replay.empty()) { std::string s = slurp(a.replay); std::vector<int> bodies, prefix; int level = 1; if (s.rfind("tsan", 0) == 0) return done(0);
+        if (s.rfind("isolation-preamble", 0) == 0) { BlockParameters bp; bp.storage_parameters.max_block_items = 3; BlockParameters extra; extra.storage_parameters.ticks_per_second = 1000; std::vector<BlockParameters> bps = {bp}; FilePreamble fp(bps); std::string fp_before = lib::dump(fp); Pools P = make_pools(1000000); std::vector<std::string> oa, ob, oc;
+            { CdnsExporter A(fp, MemSink{&oa}, CborOutputCompression::NO_COMPRESSION), B(fp, MemSink{&ob}, CborOutputCompression::NO_COMPRESSION); A.add_block_parameters(extra); A.buffer_qr(P.qr[0]); A.write_block(); B.buffer_qr(P.qr[3]); B.write_block(); }
+            { std::vector<BlockParameters> bps2 = {bp}; FilePreamble fresh(bps2); CdnsExporter C(fresh, MemSink{&oc}, CborOutputCompression::NO_COMPRESSION); C.buffer_qr(P.qr[3]); C.write_block(); }
+            if (ob.at(0) != oc.at(0) || lib::dump(fp) != fp_before) total.violation("sched|instance-isolation|shared-preamble|sibling-output", "exporters built from one FilePreamble object are not independent", s); return done(total.viol.empty() ? 0 : 1); }
         if (s.rfind("isolation", 0) == 0) { int x = 0, y = 0; sscanf(s.c_str(), "isolation;x=%d;y=%d", &x, &y); std::string al, d; { std::thread th([&]() { al = run_body(y, 1); }); th.join(); } { std::thread th([&]() { run_body(x, 0); d = run_body(y, 1); }); th.join(); }
             if (d != al) total.violation(std::string("sched|instance-isolation|") + BN[y] + "|after-" + BN[x], "differs from a fresh thread", s); return done(total.viol.empty() ? 0 : 1); } if (!parse_prefix(s, bodies, prefix, level)) return done(2); int ei = -1; { size_t z = s.find(";eintr="); if (z != std::string::npos) ei = atoi(s.c_str() + z + 7); } g_eintr_thread = ei >= 0 ? 0 : -1; g_eintr_index = ei;
         Pool rp(1, 120); rp.run(1, [&](uint64_t, Result& R) { RunOut x1 = controlled_run(bodies, prefix, level), x2 = controlled_run(bodies, prefix, level); if (x1.digest != x2.digest) R.violation("sched|HARNESS-nondeterministic-replay", "same schedule, different digests", s); check_run(bodies, prefix, level, x1, R, ei); R.count("traces"); },
@@ -224,7 +228,16 @@ int main(int argc, char** argv) {
         std::map<int, std::string> alone; for (int y = 0; y < NISO; y++) { std::thread th([&]() { alone[y] = run_body(y, 1); }); th.join(); }
         for (int x = 0; x < NISO; x++) for (int y = 0; y < NISO; y++) { std::string d; std::thread th([&]() { run_body(x, 0); d = run_body(y, 1); }); th.join(); total.count("traces"); total.count("nontrivial"); total.count("isolation_runs");
             if (d != alone[y]) total.violation(std::string("sched|instance-isolation|") + BN[y] + "|after-" + BN[x], std::string("workload ") + BN[y] + " gives " + d.substr(0, 50) + " on a thread that ran " + BN[x] + " before, but " + alone[y].substr(0, 50) + " on a fresh thread", "isolation;x=" + std::to_string(x) + ";y=" + std::to_string(y)); }
-        total.sample("instance isolation: 81 ordered pairs of 9 workloads, each pair on one fresh thread");
+        // two exporters constructed from ONE FilePreamble object: each owns its copy. What one of them does to its parameters must reach neither its sibling nor the caller's object.
+        { BlockParameters bp; bp.storage_parameters.max_block_items = 3; BlockParameters extra; extra.storage_parameters.ticks_per_second = 1000; std::vector<BlockParameters> bps = {bp}; FilePreamble fp(bps); std::string fp_before = lib::dump(fp);
+          Pools P = make_pools(1000000); std::vector<std::string> oa, ob, oc;
+          { CdnsExporter A(fp, MemSink{&oa}, CborOutputCompression::NO_COMPRESSION), B(fp, MemSink{&ob}, CborOutputCompression::NO_COMPRESSION);
+            A.add_block_parameters(extra); A.get_active_block_parameters_ref().storage_parameters.max_block_items = 7; A.buffer_qr(P.qr[0]); A.write_block(); B.buffer_qr(P.qr[3]); B.write_block(); }
+          { std::vector<BlockParameters> bps2 = {bp}; FilePreamble fresh(bps2); CdnsExporter C(fresh, MemSink{&oc}, CborOutputCompression::NO_COMPRESSION); C.buffer_qr(P.qr[3]); C.write_block(); }
+          total.count("traces"); total.count("nontrivial"); total.count("isolation_runs");
+          if (ob.at(0) != oc.at(0)) total.violation("sched|instance-isolation|shared-preamble|sibling-output", "an exporter built from the same FilePreamble object as another one writes " + std::to_string(ob[0].size()) + " bytes, but " + std::to_string(oc[0].size()) + " bytes when built from its own equal preamble (the sibling had added a parameter set)", "isolation-preamble");
+          if (lib::dump(fp) != fp_before) total.violation("sched|instance-isolation|shared-preamble|callers-object", "the caller's FilePreamble changed after an exporter constructed from it modified its own parameters", "isolation-preamble"); }
+        total.sample("instance isolation: 81 ordered pairs of 9 workloads, each pair on one fresh thread; two exporters built from one FilePreamble object");
     }
     struct Task { std::vector<int> bodies; int i0; int eintr = -1; };
     std::vector<Task> tasks;
